@@ -4,7 +4,10 @@
 (* A project is N object types.  Type t names at most two base types       *)
 (* (allOf) and declares up to three properties, each referring to a type   *)
 (* in one of four ways: plainly ("ref"), as the element of an array        *)
-(* ("arr"), optionally ("opt") or as one of two alternatives ("or").       *)
+(* ("arr"), optionally ("opt"), as one of two alternatives ("or"), or as   *)
+(* the base of an inline object that is the item of an array ("ainh": the  *)
+(* children of that object are Inherited(to), marked with to, then its own *)
+(* property nk).                                                           *)
 (* Unlike the type blocks of JSightApi the graphs are NOT kept acyclic:    *)
 (* recursion through arrays, optional properties and alternatives is part  *)
 (* of the language, and so are recursive types that inherit.               *)
@@ -28,7 +31,7 @@ VARIABLES g, k          \* g[t] = [bases |-> seq of types, props |-> seq of [to,
 vars == <<g, k>>
 
 T == 1..N
-Hows == {"ref", "arr", "opt", "or", "int"}
+Hows == {"ref", "arr", "opt", "or", "int", "ainh"}     \* "ainh": an array whose item is an inline object that inherits the type
 Range(s) == {s[i] : i \in 1..Len(s)}
 
 \* (function constructors are lazy in TLC: with RandomElement inside they would yield another value at every
